@@ -33,4 +33,5 @@ func ZzC01U4L3() { zzC01(zzU4(), 3) }
 func ZzC01U7L3() { zzC01(zzU7(), 3) }
 func ZzC01U8L3() { zzC01(zzU8(), 3) }
 
+func ZzC01U4P3L1() { zzC01P(zzU4(), zzU4Preamble(), 1) }
 func ZzC01U9P3L2() { zzC01P(zzU9(), zzU9Preamble(), 2) }
